@@ -135,8 +135,8 @@ func (c *c17Case) Oracle() (bool, string) {
 }
 
 func (c *c17Case) Sx() string {
-	if c.Fatal != "" {
-		return ""
+	if c.Fatal != "" || c.Opts.MemstoreBytes < 1<<20 {
+		return "" // self-rotating sessions are not programs of Db/Logical.v: the reference map judges them
 	}
 	return sxDbProgram(c.Opts, c.Steps, c.Sweeps, false)
 }
@@ -211,6 +211,23 @@ func genC17(r *rand.Rand, tier string) []Case {
 			}
 			c.Steps = append(c.Steps, s)
 		}
+		cases = append(cases, c)
+	}
+	// a small memstore and one key overwritten again and again: the log grows far beyond the memstore limit while the
+	// memstore stays below it; then other keys, a clean restart, and every key must read as before it
+	nh := 4
+	if tier == "thorough" {
+		nh = 60
+	}
+	for i := 0; i < nh; i++ {
+		keys := [][]byte{[]byte("hot"), []byte("b"), []byte("c")}
+		c := &c17Case{Keys: keys, Opts: dbOpts{MemstoreBytes: uint64(150 + r.Intn(300)), Threshold: 10, MaxSize: 5 << 30, RatioPct: 20, WBuf: 4096, RBuf: 4096, AsyncWAL: i%2 == 0}}
+		for j := 0; j < 40+r.Intn(150); j++ {
+			c.Steps = append(c.Steps, dbStep{Op: []string{"put", "putb"}[j%2], K: keys[0], V: []byte(fmt.Sprintf("gen-%04d", j))})
+		}
+		c.Steps = append(c.Steps, dbStep{Op: "put", K: keys[1], V: []byte("other")}, dbStep{Op: "put", K: keys[0], V: []byte("final-value")}, dbStep{Op: "del", K: keys[1]})
+		o := c.Opts
+		c.Steps = append(c.Steps, dbStep{Op: "reopen", Opts: &o}, dbStep{Op: "get", K: keys[0]}, dbStep{Op: "get", K: keys[1]}, dbStep{Op: "reopen", Opts: &o}, dbStep{Op: "get", K: keys[0]})
 		cases = append(cases, c)
 	}
 	return cases
